@@ -69,7 +69,18 @@ static void pio_parse_ctx(const lp_polynomial_context_t* ctx, lp_polynomial_t* p
   lp_polynomial_delete(acc);
 }
 static void pio_parse(lp_polynomial_t* p, const char* s) { pio_parse_ctx(pio_ctx, p, s); }
-static lp_polynomial_t* pio_new(const char* s) { lp_polynomial_t* p = lp_polynomial_new(pio_ctx); pio_parse(p, s); return p; }
+/* VERIF_STALE=1: every operand built by pio_new is created under the REVERSED variable order, marked external and
+ * handed out after the order has been restored - i.e. it is an external polynomial that is still laid out for a
+ * previous order and that no API call has touched yet.  Every public operation has to re-order such operands itself
+ * (lp_polynomial_external_clean); results must be identical to the normal run (checked by `check`, STALE_RERUN). */
+static int pio_stale = -1;
+static lp_polynomial_t* pio_new(const char* s) {
+  if (pio_stale < 0) { const char* e = getenv("VERIF_STALE"); pio_stale = (e && e[0] == '1') ? 1 : 0; }
+  if (pio_stale) lp_variable_order_reverse(pio_order);
+  lp_polynomial_t* p = lp_polynomial_new(pio_ctx); pio_parse(p, s);
+  if (pio_stale) { lp_polynomial_set_external(p); lp_variable_order_reverse(pio_order); }
+  return p;
+}
 
 /* ---- canonical printing through lp_polynomial_traverse */
 typedef struct { int nv; int var[PIO_NV]; unsigned long exp[PIO_NV]; char* coef; } pio_term_t;
